@@ -15,7 +15,7 @@ def _ops(prop, names):
         OP_PROPS.setdefault(n, set()).add(prop)
 
 
-_ops("C01", "New Add AddString IgnoreIdentical Append Concat Rename RenameRegexp CleanNames TrimNames TrimNamesAuto "
+_ops("C01", "New NewFromFasta Add AddString IgnoreIdentical Append Concat Rename RenameRegexp CleanNames TrimNames TrimNamesAuto "
             "AppendSeqIdentifier Sort ShuffleSequences FilterLength Deduplicate Translate Clone CloneSeqBag Sample "
             "SampleSeqBag Clear SetSequenceChar ReplaceChar Replace AutoAlphabet SetAlphabet DetectAlphabet Identical "
             "RemoveGapSeqs RemoveCharacterSeqs RemoveGapSites RemoveCharacterSites RemoveMajorityCharacterSites")
